@@ -14,6 +14,11 @@ CHECKS = {
   text="Every URI of the stated segment/separator/leading alphabet (exhaustive up to 4 segments quick, 6 thorough) is looked up on real TemplateLookup objects over a fixture tree with canary files at every place a traversal could land, directly and through include/inherit/namespace/Namespace-API calls from callers at depth 0..3; a sys.addaudithook file-access monitor, the realpath of every returned Template.filename and a canary scan of the output decide containment.",
   note="Trusted: os.path.realpath and the audit hook's coverage of open/mkdir/rename/remove/mkstemp/shutil events; symlinks and spellings outside the alphabet are not explored.",
   technique="audit-hook file-access monitor + containment oracle over exhaustively enumerated URIs"),
+ "C14": dict(
+  category="exploration", design_ref="DESIGN.md §2 C14",
+  text="History + executable model: real TemplateLookup objects over real files run operation histories on a virtual clock (codegen time, LRU timer and module mtimes driven by the harness); every template prints uri@dir#version so each get_template result is judged against the model's prediction (same object and zero constructions / new object with the current version / exception class), and after every operation the 1.5n bound and the eviction order are checked against the model's recency list. All histories of length <=4 (quick) / <=5 (thorough) over a 10-operation alphabet are enumerated under 4 configurations; longer ones are random.",
+  note="Trusted: the lookup model in checks/c14.py and the virtual clock shims; same-second modifications are accepted either way as the statement allows. One open known finding (module file shared between directories).",
+  technique="recorded operation histories checked against an executable lookup model on a virtual clock"),
  "C19": dict(
   category="exploration", design_ref="DESIGN.md §2 C19",
   text="CPython is the runtime oracle: random expression trees over the whole ast expression grammar (depth<=5) are re-emitted by Mako's ExpressionGenerator and compared by ast.dump and by value, and a sample runs end-to-end as def/page defaults and filter-call arguments; generated statement blocks (functions with every parameter kind, lambdas, comprehensions, try/with/loops/imports) run under strict_undefined with exactly the names CPython's symtable says they need and must equal native exec, and must raise NameError naming a removed name; 18 tricky block shapes are re-margined at 0..12 spaces/tabs in <% %> and <%! %> and compared with native exec.",
